@@ -20,7 +20,9 @@ def select(name):
 
 
 def tasks():
-    out = [ClusterTask("mailbox-cluster", "props.mailbox", "engine", select, "mailbox_history:search")]
+    import os
+    nocl = bool(os.environ.get('VERIF_NO_CLUSTER'))
+    out = ([] if nocl else [ClusterTask("mailbox-cluster", "props.mailbox", "engine", select, "mailbox_history:search")])
     from . import c18
     out += [t for t in c18.tasks() if getattr(t, "contract", None) is not None and
             t.contract.target.endswith(("_DeferredWormhole.closed", "_DeferredWormhole.close"))]
